@@ -12,6 +12,11 @@
 //!   `>key`                     block reference `[r](key)` (a key that is not defined is a missing note)
 //!   `L#text`                   a heading inside a list item (`- # text`)           (used by C18)
 //!   `Q#text`                   a heading inside a block quote (`> # text`)         (used by C18)
+//!   `Q>key`                    a block quote that contains only the reference (`> [r](key)`)
+//!   `Q<text>>key`              a block quote with the paragraph <text>, then the reference
+//!                              (`Qp>2` = `> p` / `>` / `> [r](2)`)
+//!   `L>key` / `L<text>>key`    a bullet item whose text is <text> (default `item`) and whose second
+//!                              block is the reference (`- item` / blank / `  [r](key)`)
 //!   anything else              a paragraph with that text
 //! Blocks are rendered separated by one blank line. A note spec `{i=a..b}=tmpl` stands for the
 //! notes a..=b with `{i}` / `{i+1}` replaced in key and template (used for long chains).
@@ -34,9 +39,27 @@ use std::rc::Rc;
 
 // ====================================================================== mini-syntax (shared with C18)
 
+/// `Q<text>>key` / `L<text>>key`: (container, text, key)
+fn container_ref(tok: &str) -> Option<(char, &str, &str)> {
+    let c = tok.chars().next()?;
+    if (c != 'Q' && c != 'L') || tok[1..].starts_with('#') {
+        return None;
+    }
+    let (text, key) = tok[1..].split_once('>')?;
+    Some((c, text, key))
+}
+
 pub fn render_block(tok: &str) -> String {
     if let Some(k) = tok.strip_prefix('>') {
         return format!("[r]({})", k);
+    }
+    if let Some((c, text, key)) = container_ref(tok) {
+        return match (c, text.is_empty()) {
+            ('Q', true) => format!("> [r]({})", key),
+            ('Q', false) => format!("> {}\n>\n> [r]({})", text, key),
+            (_, true) => format!("- item\n\n  [r]({})", key),
+            (_, false) => format!("- {}\n\n  [r]({})", text, key),
+        };
     }
     let (prefix, rest) = if let Some(r) = tok.strip_prefix("L#") {
         ("- ", format!("#{}", r))
@@ -159,8 +182,19 @@ fn wipe(b: &B) -> B {
     b.clone()
 }
 
+/// wipe the link text of every reference paragraph, containers included
+fn wipe_deep(b: &B) -> B {
+    match b {
+        B::Quote(v) => B::Quote(v.iter().map(wipe_deep).collect()),
+        B::List(o, items) => B::List(*o, items.iter().map(|it| it.iter().map(wipe_deep).collect()).collect()),
+        x => wipe(x),
+    }
+}
+
 fn show_b(b: &B) -> String {
     match b {
+        B::Quote(v) => format!("QUOTE[{}]", v.iter().map(show_b).collect::<Vec<_>>().join(" ")),
+        B::List(_, items) => format!("LIST[{}]", items.iter().map(|it| format!("ITEM[{}]", it.iter().map(show_b).collect::<Vec<_>>().join(" "))).collect::<Vec<_>>().join(" ")),
         B::Heading(t) => format!("H({})", oracle::plain_text(t)),
         B::Para(t) => match block_ref_dest(b) {
             Some(d) => format!("REF({})", d),
@@ -184,10 +218,31 @@ fn kind_b(b: &B) -> &'static str {
     }
 }
 
+/// Adjacent lists of the same kind merge when Markdown text is read back, so list boundaries are
+/// not compared: every list is taken apart into one-item lists (on both sides, at every level).
+fn split_lists(bs: Vec<B>) -> Vec<B> {
+    let mut out = vec![];
+    for b in bs {
+        match b {
+            B::Quote(v) => out.push(B::Quote(split_lists(v))),
+            B::List(o, items) => {
+                for it in items {
+                    out.push(B::List(o, vec![split_lists(it)]));
+                }
+            }
+            x => out.push(x),
+        }
+    }
+    out
+}
+
 enum SrcBlk {
     Own(B),
     /// resolved target key (None: climbs above the root), wiped paragraph, number of enclosing headings
     Ref(Option<String>, B, usize),
+    /// a block quote / a list (ordered?, items) that contains a block reference somewhere
+    Quote(Vec<SrcBlk>),
+    List(bool, Vec<Vec<SrcBlk>>),
 }
 
 /// index (among the note's blocks) of the heading whose section directly contains the block
@@ -200,8 +255,44 @@ struct SrcNote {
     own_nest: usize,
 }
 
+/// blocks inside a container. In a list item the first block is the item's text, never a reference.
+fn src_inner(key: &str, bs: Vec<B>, ctx: usize, item: bool) -> (Vec<SrcBlk>, bool) {
+    let mut out = vec![];
+    let mut has_ref = false;
+    for (i, b) in bs.into_iter().enumerate() {
+        match b {
+            B::Quote(v) => {
+                let (inner, r) = src_inner(key, v.clone(), ctx, false);
+                if r {
+                    has_ref = true;
+                    out.push(SrcBlk::Quote(inner));
+                } else {
+                    out.push(SrcBlk::Own(B::Quote(v)));
+                }
+            }
+            B::List(o, items) => {
+                let conv: Vec<(Vec<SrcBlk>, bool)> = items.iter().map(|it| src_inner(key, it.clone(), ctx, true)).collect();
+                if conv.iter().any(|c| c.1) {
+                    has_ref = true;
+                    out.push(SrcBlk::List(o, conv.into_iter().map(|c| c.0).collect()));
+                } else {
+                    out.push(SrcBlk::Own(B::List(o, items)));
+                }
+            }
+            b => match block_ref_dest(&b) {
+                Some(dest) if !(item && i == 0) => {
+                    has_ref = true;
+                    out.push(SrcBlk::Ref(oracle::resolve(&oracle::dir_of(key), &dest), wipe(&b), ctx));
+                }
+                _ => out.push(SrcBlk::Own(b)),
+            },
+        }
+    }
+    (out, has_ref)
+}
+
 fn src_note(key: &str, text: &str) -> SrcNote {
-    let bs = oracle::canon_in(oracle::extract(text), false);
+    let bs = split_lists(oracle::canon_in(oracle::extract(text), false));
     // levels of the document-level headings in order (R2)
     let levels: Vec<u8> = oracle::heading_levels(text).into_iter().filter(|h| h.2 == 0).map(|h| h.0).collect();
     let mut li = 0;
@@ -220,13 +311,10 @@ fn src_note(key: &str, text: &str) -> SrcNote {
             stack.push((l, blocks.len()));
             own_nest = own_nest.max(stack.len());
             blocks.push(SrcBlk::Own(b));
-        } else if let Some(dest) = block_ref_dest(&b) {
-            let target = oracle::resolve(&oracle::dir_of(key), &dest);
-            parents.push(stack.last().map(|t| t.1));
-            blocks.push(SrcBlk::Ref(target, wipe(&b), stack.len()));
         } else {
             parents.push(stack.last().map(|t| t.1));
-            blocks.push(SrcBlk::Own(b));
+            let (mut v, _) = src_inner(key, vec![b], stack.len(), false);
+            blocks.push(v.pop().unwrap());
         }
     }
     SrcNote { blocks, parents, own_nest }
@@ -237,13 +325,25 @@ enum RefItem {
     Exp(Rc<Pat>),
 }
 
-/// expected result of squashing one note with one depth: own blocks in order + one item per reference
+/// a non-reference block of the expected result
+enum OwnItem {
+    Leaf(B),
+    /// a container whose content is again `own blocks + reference items`
+    Quote(Rc<Pat>),
+    List(bool, Vec<Rc<Pat>>),
+}
+
+/// expected content of one block sequence (a squashed note, the inside of a quote, a list item):
+/// own blocks in order + one item per reference that stood among them
 struct Pat {
     id: usize,
-    owns: Vec<B>,
+    owns: Vec<OwnItem>,
     /// (item, index among owns before which the reference stood in the source)
     refs: Vec<(RefItem, usize)>,
+    /// number of blocks of the sequence
     len: usize,
+    /// number of leaf blocks, containers opened up
+    leaves: usize,
     nest: usize,
     /// number of blocks at the top level of the expected tree / largest number of children of one parent
     top_width: usize,
@@ -251,6 +351,8 @@ struct Pat {
     /// number of references to existing notes kept as links because the depth ran out
     exhausted: u64,
     expansions: u64,
+    /// expansions that stand inside a quote / list item
+    contained: u64,
 }
 
 struct R5<'a> {
@@ -261,54 +363,122 @@ struct R5<'a> {
 
 const SIZE_CAP: usize = 2_000_000;
 
+struct Acc {
+    owns: Vec<OwnItem>,
+    refs: Vec<(RefItem, usize)>,
+    len: usize,
+    leaves: usize,
+    nest: usize,
+    max_width: usize,
+    exhausted: u64,
+    expansions: u64,
+    contained: u64,
+}
+
 impl<'a> R5<'a> {
+    fn fresh(&mut self) -> usize {
+        self.next_id += 1;
+        self.next_id - 1
+    }
+
+    /// one block of a sequence; returns the number of blocks it contributes at this level
+    fn add(&mut self, b: &SrcBlk, depth: u32, in_container: bool, acc: &mut Acc) -> usize {
+        match b {
+            SrcBlk::Own(x) => {
+                acc.owns.push(OwnItem::Leaf(x.clone()));
+                acc.len += 1;
+                acc.leaves += 1;
+                1
+            }
+            SrcBlk::Ref(target, para, ctx) => {
+                let exists = target.as_ref().map(|t| self.src.contains_key(t)).unwrap_or(false);
+                if exists && depth > 0 {
+                    let sub = self.expand(target.as_ref().unwrap(), depth - 1);
+                    acc.max_width = acc.max_width.max(sub.max_width);
+                    acc.len = (acc.len + sub.len).min(SIZE_CAP);
+                    acc.leaves = (acc.leaves + sub.leaves).min(SIZE_CAP);
+                    if !in_container {
+                        acc.nest = acc.nest.max(ctx + sub.nest);
+                    }
+                    acc.exhausted += sub.exhausted;
+                    acc.expansions += 1 + sub.expansions;
+                    acc.contained += sub.contained + if in_container { 1 } else { 0 };
+                    let w = sub.top_width;
+                    acc.refs.push((RefItem::Exp(sub), acc.owns.len()));
+                    w
+                } else {
+                    if exists {
+                        acc.exhausted += 1;
+                    }
+                    acc.len += 1;
+                    acc.leaves += 1;
+                    acc.refs.push((RefItem::Link(para.clone()), acc.owns.len()));
+                    1
+                }
+            }
+            SrcBlk::Quote(inner) => {
+                let p = self.sequence(inner, depth, acc);
+                // a quote left with nothing in it says nothing
+                if p.len > 0 {
+                    acc.owns.push(OwnItem::Quote(p));
+                    acc.len += 1;
+                    1
+                } else {
+                    0
+                }
+            }
+            SrcBlk::List(o, items) => {
+                let mut ps = vec![];
+                for it in items {
+                    let p = self.sequence(it, depth, acc);
+                    if p.len > 0 {
+                        ps.push(p);
+                    }
+                }
+                if ps.is_empty() {
+                    0
+                } else {
+                    acc.owns.push(OwnItem::List(*o, ps));
+                    acc.len += 1;
+                    1
+                }
+            }
+        }
+    }
+
+    /// the inside of a container; counters are added to the enclosing accumulator
+    fn sequence(&mut self, blocks: &[SrcBlk], depth: u32, outer: &mut Acc) -> Rc<Pat> {
+        let mut acc = Acc { owns: vec![], refs: vec![], len: 0, leaves: 0, nest: 0, max_width: 0, exhausted: 0, expansions: 0, contained: 0 };
+        let mut width = 0usize;
+        for b in blocks {
+            width = (width + self.add(b, depth, true, &mut acc)).min(SIZE_CAP);
+        }
+        outer.leaves = (outer.leaves + acc.leaves).min(SIZE_CAP);
+        outer.max_width = outer.max_width.max(acc.max_width).max(width);
+        outer.exhausted += acc.exhausted;
+        outer.expansions += acc.expansions;
+        outer.contained += acc.contained;
+        let id = self.fresh();
+        Rc::new(Pat { id, owns: acc.owns, refs: acc.refs, len: acc.len, leaves: acc.leaves, nest: 0, top_width: width, max_width: acc.max_width.max(width), exhausted: acc.exhausted, expansions: acc.expansions, contained: acc.contained })
+    }
+
     fn expand(&mut self, key: &str, depth: u32) -> Rc<Pat> {
         if let Some(p) = self.memo.get(&(key.to_string(), depth)) {
             return p.clone();
         }
-        let note = &self.src[key];
-        let mut owns = vec![];
-        let mut refs = vec![];
-        let mut len = 0usize;
-        let mut nest = note.own_nest;
-        let mut exhausted = 0;
-        let mut expansions = 0;
+        let src = self.src;
+        let note = &src[key];
+        let mut acc = Acc { owns: vec![], refs: vec![], len: 0, leaves: 0, nest: note.own_nest, max_width: 0, exhausted: 0, expansions: 0, contained: 0 };
         let mut widths: BTreeMap<Parent, usize> = BTreeMap::new();
-        let mut max_width = 0usize;
         for (bi, b) in note.blocks.iter().enumerate() {
-            let w = widths.entry(note.parents[bi]).or_insert(0);
-            match b {
-                SrcBlk::Own(x) => {
-                    owns.push(x.clone());
-                    len += 1;
-                    *w += 1;
-                }
-                SrcBlk::Ref(target, para, ctx) => {
-                    let exists = target.as_ref().map(|t| self.src.contains_key(t)).unwrap_or(false);
-                    if exists && depth > 0 {
-                        let sub = self.expand(target.as_ref().unwrap(), depth - 1);
-                        *w = (*w + sub.top_width).min(SIZE_CAP);
-                        max_width = max_width.max(sub.max_width);
-                        len = (len + sub.len).min(SIZE_CAP);
-                        nest = nest.max(ctx + sub.nest);
-                        exhausted += sub.exhausted;
-                        expansions += 1 + sub.expansions;
-                        refs.push((RefItem::Exp(sub), owns.len()));
-                    } else {
-                        if exists {
-                            exhausted += 1;
-                        }
-                        len += 1;
-                        *w += 1;
-                        refs.push((RefItem::Link(para.clone()), owns.len()));
-                    }
-                }
-            }
+            let w = self.add(b, depth, false, &mut acc);
+            let e = widths.entry(note.parents[bi]).or_insert(0);
+            *e = (*e + w).min(SIZE_CAP);
         }
         let top_width = widths.get(&None).cloned().unwrap_or(0);
-        max_width = max_width.max(widths.values().cloned().max().unwrap_or(0));
-        let p = Rc::new(Pat { id: self.next_id, owns, refs, len, nest, top_width, max_width, exhausted, expansions });
-        self.next_id += 1;
+        let max_width = acc.max_width.max(widths.values().cloned().max().unwrap_or(0));
+        let id = self.fresh();
+        let p = Rc::new(Pat { id, owns: acc.owns, refs: acc.refs, len: acc.len, leaves: acc.leaves, nest: acc.nest, top_width, max_width, exhausted: acc.exhausted, expansions: acc.expansions, contained: acc.contained });
         self.memo.insert((key.to_string(), depth), p.clone());
         p
     }
@@ -322,7 +492,25 @@ fn flatten(p: &Pat, out: &mut Vec<B>) {
             flatten_ref(&p.refs[ri].0, out);
             ri += 1;
         }
-        out.push(o.clone());
+        match o {
+            OwnItem::Leaf(b) => out.push(b.clone()),
+            OwnItem::Quote(q) => {
+                let mut v = vec![];
+                flatten(q, &mut v);
+                out.push(B::Quote(v));
+            }
+            OwnItem::List(ord, items) => out.push(B::List(
+                *ord,
+                items
+                    .iter()
+                    .map(|it| {
+                        let mut v = vec![];
+                        flatten(it, &mut v);
+                        v
+                    })
+                    .collect(),
+            )),
+        }
     }
     while ri < p.refs.len() {
         flatten_ref(&p.refs[ri].0, out);
@@ -337,15 +525,33 @@ fn flatten_ref(r: &RefItem, out: &mut Vec<B>) {
     }
 }
 
+/// leaf blocks with the path of containers they stand in ('Q' quote, 'U' bullet item, 'O' ordered item)
+fn leaves(bs: &[B], path: &str, out: &mut Vec<(String, B)>) {
+    for b in bs {
+        match b {
+            B::Quote(v) => leaves(v, &format!("{}Q", path), out),
+            B::List(o, items) => {
+                for it in items {
+                    leaves(it, &format!("{}{}", path, if *o { 'O' } else { 'U' }), out)
+                }
+            }
+            x => out.push((path.to_string(), x.clone())),
+        }
+    }
+}
+
+type Memo = HashMap<(usize, usize, usize), bool>;
+
 /// Does s[a .. a+p.len] consist of p's own blocks in order plus, anywhere between them, one
 /// contiguous admissible rendering of every reference item? (position of a reference among its
-/// siblings is a don't-care)
-fn matches(p: &Pat, s: &[B], a: usize, memo: &mut HashMap<(usize, usize), bool>) -> bool {
-    if let Some(r) = memo.get(&(p.id, a)) {
+/// siblings is a don't-care; containers are matched recursively)
+fn matches(p: &Pat, s: &[B], a: usize, memo: &mut Memo) -> bool {
+    let k = (p.id, s.as_ptr() as usize, a);
+    if let Some(r) = memo.get(&k) {
         return *r;
     }
     let r = matches_inner(p, s, a, memo);
-    memo.insert((p.id, a), r);
+    memo.insert(k, r);
     r
 }
 
@@ -356,7 +562,16 @@ fn ref_len(r: &RefItem) -> usize {
     }
 }
 
-fn matches_inner(p: &Pat, s: &[B], a: usize, memo: &mut HashMap<(usize, usize), bool>) -> bool {
+fn own_matches(o: &OwnItem, b: &B, memo: &mut Memo) -> bool {
+    match (o, b) {
+        (OwnItem::Leaf(x), y) => x == y,
+        (OwnItem::Quote(q), B::Quote(v)) => v.len() == q.len && matches(q, v, 0, memo),
+        (OwnItem::List(o1, items), B::List(o2, its)) => o1 == o2 && items.len() == its.len() && items.iter().zip(its.iter()).all(|(p, v)| v.len() == p.len && matches(p, v, 0, memo)),
+        _ => false,
+    }
+}
+
+fn matches_inner(p: &Pat, s: &[B], a: usize, memo: &mut Memo) -> bool {
     if a + p.len > s.len() {
         return false;
     }
@@ -371,7 +586,7 @@ fn matches_inner(p: &Pat, s: &[B], a: usize, memo: &mut HashMap<(usize, usize), 
                 continue;
             }
             let pos = a + j + (0..nr).filter(|i| mask & (1 << i) != 0).map(|i| ref_len(&p.refs[i].0)).sum::<usize>();
-            if j < no && pos < s.len() && s[pos] == p.owns[j] {
+            if j < no && pos < s.len() && own_matches(&p.owns[j], &s[pos], memo) {
                 reach[((j + 1) << nr) | mask] = true;
             }
             for i in 0..nr {
@@ -397,23 +612,32 @@ fn matches_inner(p: &Pat, s: &[B], a: usize, memo: &mut HashMap<(usize, usize), 
 fn graph_features(notes: &[(String, Vec<String>)], src: &BTreeMap<String, SrcNote>, root: &str, depth: u32, pat: &Pat) -> Vec<String> {
     let mut f: BTreeSet<String> = BTreeSet::new();
     // reachable part of the block-reference graph
-    let edges = |k: &str| -> Vec<(Option<String>, usize, usize)> {
-        // (target, enclosing headings, block index)
-        src[k]
-            .blocks
-            .iter()
-            .enumerate()
-            .filter_map(|(i, b)| match b {
-                SrcBlk::Ref(t, _, ctx) => Some((t.clone(), *ctx, i)),
-                _ => None,
-            })
-            .collect()
+    fn collect(bs: &[SrcBlk], top: Option<usize>, cont: Option<char>, out: &mut Vec<(Option<String>, usize, usize, Option<char>)>) {
+        for (i, b) in bs.iter().enumerate() {
+            let ti = top.unwrap_or(i);
+            match b {
+                SrcBlk::Ref(t, _, ctx) => out.push((t.clone(), *ctx, ti, cont)),
+                SrcBlk::Quote(v) => collect(v, Some(ti), Some('Q'), out),
+                SrcBlk::List(_, items) => {
+                    for it in items {
+                        collect(it, Some(ti), Some('L'), out)
+                    }
+                }
+                SrcBlk::Own(_) => {}
+            }
+        }
+    }
+    let edges = |k: &str| -> Vec<(Option<String>, usize, usize, Option<char>)> {
+        // (target, enclosing headings, index of the top-level block, container)
+        let mut v = vec![];
+        collect(&src[k].blocks, None, None, &mut v);
+        v
     };
     let mut reach: Vec<String> = vec![root.to_string()];
     let mut i = 0;
     while i < reach.len() {
         let k = reach[i].clone();
-        for (t, _, _) in edges(&k) {
+        for (t, _, _, _) in edges(&k) {
             if let Some(t) = t {
                 if src.contains_key(&t) && !reach.contains(&t) {
                     reach.push(t);
@@ -427,7 +651,18 @@ fn graph_features(notes: &[(String, Vec<String>)], src: &BTreeMap<String, SrcNot
         let es = edges(k);
         let n = src[k].blocks.len();
         let mut seen_targets: Vec<String> = vec![];
-        for (t, ctx, bi) in &es {
+        for (t, ctx, bi, cont) in &es {
+            match cont {
+                Some('Q') => {
+                    f.insert("reference-in-quote".into());
+                    f.insert("reference-in-container".into());
+                }
+                Some(_) => {
+                    f.insert("reference-in-list-item".into());
+                    f.insert("reference-in-container".into());
+                }
+                None => {}
+            }
             match t {
                 Some(t) if src.contains_key(t) => {
                     if t == k {
@@ -448,6 +683,9 @@ fn graph_features(notes: &[(String, Vec<String>)], src: &BTreeMap<String, SrcNot
                 _ => {
                     f.insert("dangling-reference".into());
                 }
+            }
+            if cont.is_some() {
+                continue;
             }
             if *ctx == 0 {
                 f.insert("reference-outside-section".into());
@@ -487,7 +725,7 @@ fn graph_features(notes: &[(String, Vec<String>)], src: &BTreeMap<String, SrcNot
                 continue;
             }
             seen.push(x.clone());
-            for (t, _, _) in edges(&x) {
+            for (t, _, _, _) in edges(&x) {
                 if let Some(t) = t {
                     if src.contains_key(&t) {
                         stack.push(t);
@@ -507,6 +745,9 @@ fn graph_features(notes: &[(String, Vec<String>)], src: &BTreeMap<String, SrcNot
     }
     if pat.expansions > 0 {
         f.insert("expands".into());
+    }
+    if pat.contained > 0 {
+        f.insert("expands-inside-container".into());
     }
     for t in [6usize, 255] {
         if pat.nest > t {
@@ -634,8 +875,8 @@ fn run_inproc(case: &str) -> CaseResult {
 fn run_prepared(p: Prepared) -> CaseResult {
     let mut failures: Vec<Failure> = vec![];
     let nontrivial = p.pat.expansions > 0;
-    let size = bucket(p.pat.len);
-    if p.pat.len >= SIZE_CAP {
+    let size = bucket(p.pat.leaves);
+    if p.pat.leaves >= SIZE_CAP {
         return CaseResult { outcome: "expansion-too-large-skipped".into(), ..Default::default() };
     }
     // ---- the real code: import (C03 owns panics of the reader), squash, rebuild, export
@@ -680,11 +921,20 @@ fn run_prepared(p: Prepared) -> CaseResult {
     // ---- oracle
     let mut want_flat: Vec<B> = vec![];
     flatten(&p.pat, &mut want_flat);
+    if std::env::var("MC_SHOW").is_ok() {
+        // development aid
+        eprintln!("cli output: {:?}\nexpected: {}", cli, want_flat.iter().map(show_b).collect::<Vec<_>>().join(" "));
+    }
     let mut outcome = "ok".to_string();
     for (route, out) in [("cli", &cli), ("generate", &gen)] {
-        let got: Vec<B> = oracle::canon_out(oracle::extract(out), false).iter().map(wipe).collect();
-        let mut ws = want_flat.clone();
-        let mut gs = got.clone();
+        let got: Vec<B> = split_lists(oracle::canon_out(oracle::extract(out), false)).iter().map(wipe_deep).collect();
+        // leaf blocks, first without, then with the containers they stand in
+        let mut wl: Vec<(String, B)> = vec![];
+        let mut gl: Vec<(String, B)> = vec![];
+        leaves(&want_flat, "", &mut wl);
+        leaves(&got, "", &mut gl);
+        let mut ws: Vec<B> = wl.iter().map(|x| x.1.clone()).collect();
+        let mut gs: Vec<B> = gl.iter().map(|x| x.1.clone()).collect();
         ws.sort();
         gs.sort();
         if ws != gs {
@@ -724,7 +974,30 @@ fn run_prepared(p: Prepared) -> CaseResult {
             });
             continue;
         }
-        let mut memo = HashMap::new();
+        wl.sort();
+        gl.sort();
+        if wl != gl {
+            let moved: Vec<String> = wl.iter().filter(|x| !gl.contains(x)).map(|x| format!("{} expected in {:?}", show_b(&x.1), x.0)).collect();
+            let paths: BTreeSet<String> = wl.iter().filter(|x| !gl.contains(x)).map(|x| if x.0.is_empty() { "top".to_string() } else { x.0.clone() }).collect();
+            let site = format!("expected-in={}@{}", paths.into_iter().collect::<Vec<_>>().join("+"), route);
+            outcome = format!("container:{}", site);
+            failures.push(Failure {
+                clause: "container".into(),
+                site,
+                features: p.feats.clone(),
+                detail: format!(
+                    "{} [{} route]: same blocks, but not in the containers (Q quote, U bullet item) where the references stood: {}\nexpected (one admissible order): {}\ngot: {}\noutput: {:?}",
+                    head,
+                    route,
+                    trunc(&moved.join(", "), 400),
+                    trunc(&want_flat.iter().map(show_b).collect::<Vec<_>>().join(" "), 600),
+                    trunc(&got.iter().map(show_b).collect::<Vec<_>>().join(" "), 600),
+                    trunc(out, 800)
+                ),
+            });
+            continue;
+        }
+        let mut memo: Memo = HashMap::new();
         if !(got.len() == p.pat.len && matches(&p.pat, &got, 0, &mut memo)) {
             let site = format!("arrangement@{}", route);
             outcome = format!("order:{}", site);
@@ -745,7 +1018,8 @@ fn run_prepared(p: Prepared) -> CaseResult {
     }
     let mut counters = BTreeMap::new();
     counters.insert("expansions".to_string(), p.pat.expansions);
-    counters.insert("expected_blocks".to_string(), p.pat.len as u64);
+    counters.insert("expected_blocks".to_string(), p.pat.leaves as u64);
+    counters.insert("expansions_inside_containers".to_string(), p.pat.contained);
     let cyc = if p.feats.iter().any(|f| f == "block-reference-cycle" || f == "self-block-reference") { "cyclic" } else { "acyclic" };
     let exh = if p.pat.exhausted > 0 { "cut" } else { "full" };
     CaseResult { transitions: 3, nontrivial, outcome: format!("{}|{}|{}|size {}", outcome, cyc, exh, size), failures, counters }
@@ -782,6 +1056,8 @@ fn note_spec(key: usize, titled: bool, shape: &[String]) -> String {
         match s.as_str() {
             "p" => toks.push(format!("p{}{}", key, c)),
             "##" => toks.push(format!("##S{}{}", key, c)),
+            x if x.starts_with("Qq>") => toks.push(format!("Qq{}{}>{}", key, c, &x[3..])),
+            x if x.starts_with("L>") => toks.push(format!("Li{}{}>{}", key, c, &x[2..])),
             x => toks.push(x.to_string()),
         }
     }
@@ -798,6 +1074,48 @@ fn symbols(n: usize, sub_heading: bool) -> Vec<String> {
         s.push("##".into());
     }
     s
+}
+
+/// references inside containers: quote with only the reference, quote with paragraph + reference,
+/// bullet item whose second block is the reference; to every note, and (`dangling`) `Q>9`
+fn container_symbols(n: usize, dangling: bool) -> Vec<String> {
+    let mut s = vec![];
+    for t in 1..=n {
+        s.push(format!("Q>{}", t));
+        s.push(format!("Qq>{}", t));
+        s.push(format!("L>{}", t));
+    }
+    if dangling {
+        s.push("Q>9".into());
+    }
+    s
+}
+
+/// block sequences of up to max_blocks blocks over `plain` in which exactly one block is from `special`
+fn seqs_with_one(plain: &[String], special: &[String], max_blocks: usize) -> Vec<Vec<String>> {
+    let mut out = vec![];
+    for rest in seqs(plain, max_blocks.saturating_sub(1)) {
+        for pos in 0..=rest.len() {
+            for sp in special {
+                let mut x = rest.clone();
+                x.insert(pos, sp.clone());
+                out.push(x);
+            }
+        }
+    }
+    out.sort_by(|a, b| (a.len(), a).cmp(&(b.len(), b)));
+    out
+}
+
+/// notes (title optional) with exactly one container reference among up to max_blocks blocks
+fn container_shapes(key: usize, n: usize, max_blocks: usize, dangling: bool) -> Vec<String> {
+    let mut out = vec![];
+    for shape in seqs_with_one(&symbols(n, false), &container_symbols(n, dangling), max_blocks) {
+        for titled in [true, false] {
+            out.push(note_spec(key, titled, &shape));
+        }
+    }
+    out
 }
 
 fn note_shapes(key: usize, n: usize, max_blocks: usize, sub_heading: bool) -> Vec<String> {
@@ -818,7 +1136,8 @@ fn all_reachable(specs: &[&String]) -> bool {
     seen[1] = true;
     while let Some(k) = stack.pop() {
         for tok in specs[k - 1].split_once('=').map(|x| x.1).unwrap_or("").split(';') {
-            if let Some(t) = tok.strip_prefix('>').and_then(|t| t.parse::<usize>().ok()) {
+            let target = tok.strip_prefix('>').or_else(|| container_ref(tok).map(|c| c.2));
+            if let Some(t) = target.and_then(|t| t.parse::<usize>().ok()) {
                 if t >= 1 && t <= n && !seen[t] {
                     seen[t] = true;
                     stack.push(t);
@@ -855,6 +1174,13 @@ fn deep_libs() -> Vec<String> {
     for tmpl in ["#T{i};p{i};>{i+1}", "#T{i};>{i+1};p{i}", "p{i};>{i+1}", ">{i+1};p{i}", "#T{i};##S{i};>{i+1}"] {
         v.push(format!("{{i=1..256}}={}", tmpl));
     }
+    // references inside containers: self-loops and chains (quotes / list items nest once per level)
+    for l in ["1=#T1;Q>1", "1=Qq1a>1", "1=#T1;Li1a>1", "1=Li1a>1;p1b"] {
+        v.push(l.to_string());
+    }
+    for tmpl in ["#T{i};Q>{i+1}", "Qq{i}>{i+1};p{i}", "#T{i};Li{i}>{i+1}"] {
+        v.push(format!("{{i=1..256}}={}", tmpl));
+    }
     // a chain that closes into a cycle of 3 (expansion stays linear in the depth)
     v.push("1=#T1;>2|2=#T2;p2b;>3|3=#T3;>1".into());
     v
@@ -876,18 +1202,19 @@ impl Engine for C17 {
         "C17"
     }
     fn rule(&self) -> String {
-        "every library of the bounded space x every depth is squashed through the code path of `iwe squash` (Graph::squash + build_key_from_iter(TreeIter) + export_key) and rendered the way the generate command does (tree.iter().to_markdown); both texts are parsed with the harness's own content extractor (R1) and compared with an independent recursive expansion (R5) of the R1 trees of the source texts: same multiset of blocks (clause content), and the blocks are the note's own non-reference blocks in source order plus exactly one contiguous expansion (the target squashed with depth-1) or kept link (dangling / depth exhausted) per reference occurrence, at any position among its siblings (clause order); heading levels and link texts are presentation; a panic, an abort or no result within the horizon violates termination. Libraries: note 1 is squashed; a note = optional title + block sequence over {paragraph, reference to each note incl. itself, reference to a missing note, sub-heading}. non-trivial = at least one reference is expanded".into()
+        "every library of the bounded space x every depth is squashed through the code path of `iwe squash` (Graph::squash + build_key_from_iter(TreeIter) + export_key) and rendered the way the generate command does (tree.iter().to_markdown); both texts are parsed with the harness's own content extractor (R1) and compared with an independent recursive expansion (R5) of the R1 trees of the source texts: every block reference (a paragraph that is one internal link; at document level, inside a block quote, or as a non-first block of a list item) to an existing note is replaced, where it stands, by that note's content squashed with depth-1; dangling references and references at depth 0 stay links. Clauses: content (same multiset of leaf blocks), container (the same leaf blocks in the same quote / list-item containers: the expansion of a quoted reference stays inside the quote), order (at every level the own non-reference blocks in source order plus exactly one contiguous expansion or kept link per reference occurrence, at any position among its siblings); heading levels and link texts are presentation; a panic, an abort or no result within the horizon violates termination. Libraries: note 1 is squashed; a note = optional title + block sequence over {paragraph, reference to each note incl. itself, reference to a missing note, sub-heading, quote holding only a reference, quote holding a paragraph and a reference, bullet item whose second block is a reference}. non-trivial = at least one reference is expanded".into()
     }
     fn bound(&self, tier: Tier) -> String {
         match tier {
-            Tier::Quick => format!("1 note: <= 3 blocks; 2 notes: note 1 <= 3 blocks, note 2 <= 2 blocks; 3 notes (all reachable from note 1): <= 2 blocks, no sub-headings; depth 0..=4; plus one note with four self-references at depths 5 and 6 ({} cases, expansions of up to 16384 blocks, own subprocess); plus {} self-loop/chain/3-cycle libraries (chains of 256 notes) at depths {:?} each in its own subprocess with a {} s horizon", wide_cases().len(), deep_libs().len(), DEEP_DEPTHS, HORIZON_DEEP_S),
-            Tier::Thorough => format!("1 note: <= 4 blocks; 2 notes: <= 3 blocks each; 3 notes (all reachable): note 1 <= 2 blocks with sub-headings, others <= 2 blocks; 4 notes: every subset of the 16 edges (2^16 graphs, references in ascending order) x 2 layouts (titled `#T;p;refs`, untitled `refs;p`); depth 0..=6 (expansions of 4000 blocks or more in their own subprocess); plus {} self-loop/chain/3-cycle libraries (chains of 256 notes) at depths {:?} each in its own subprocess with a {} s horizon", deep_libs().len(), DEEP_DEPTHS, HORIZON_DEEP_S),
+            Tier::Quick => format!("1 note: <= 3 blocks (incl. the container references Q>1, Qq>1, L>1, Q>9); 2 notes: note 1 <= 3 blocks, note 2 <= 2 blocks; 2 notes with exactly one container reference (Q>t, Qq>t, L>t, t in 1..2) in note 1 (<= 3 blocks) / in note 2 (<= 2 blocks, note 1 <= 2 blocks) / in both (<= 2 blocks each), other blocks over {{p, >1, >2, >9}}; 3 notes (all reachable from note 1): <= 2 blocks, no sub-headings; depth 0..=4; plus one note with four self-references at depths 5 and 6 ({} cases, expansions of up to 16384 blocks, own subprocess); plus {} self-loop/chain/3-cycle libraries (chains of 256 notes) at depths {:?} each in its own subprocess with a {} s horizon", wide_cases().len(), deep_libs().len(), DEEP_DEPTHS, HORIZON_DEEP_S),
+            Tier::Thorough => format!("1 note: <= 4 blocks, and <= 3 blocks incl. the container references Q>1, Qq>1, L>1, Q>9; 2 notes: <= 3 blocks each; 2 notes with exactly one container reference (Q>t, Qq>t, L>t) in note 1 (<= 3 blocks) / in note 2 (<= 2 blocks, note 1 <= 3 blocks) / in both (<= 2 blocks each); 3 notes (all reachable): note 1 <= 2 blocks with sub-headings, others <= 2 blocks; 4 notes: every subset of the 16 edges (2^16 graphs, references in ascending order) x 2 layouts (titled `#T;p;refs`, untitled `refs;p`); depth 0..=6 (expansions of 4000 blocks or more in their own subprocess); plus {} self-loop/chain/3-cycle libraries (chains of 256 notes) at depths {:?} each in its own subprocess with a {} s horizon", deep_libs().len(), DEEP_DEPTHS, HORIZON_DEEP_S),
         }
     }
     fn assumptions(&self) -> Vec<String> {
         vec![
             "where an expansion or a kept link sits among the non-reference siblings of its parent is a don't-care (the implementation hoists references behind the other children); only contiguity of each expansion and the source order of the non-reference blocks are demanded".into(),
             "heading levels, blank lines and the link text of kept references (refreshed from titles, C06) are presentation".into(),
+            "the first block of a list item is the item's text, never a block reference; adjacent lists of the same kind merge when Markdown is read back, so list boundaries are not compared (every list is compared item by item)".into(),
             "in-process cases run on an 8 MiB thread (the CLI's main thread) with a 20 s horizon; a stack overflow kills the worker and is attributed by the runner (clause abort)".into(),
             "depths above 6 are explored only on graphs whose expansion is linear in the depth (single self-loops, chains, one 3-cycle)".into(),
             "panics of the Markdown reader during import are C03's and skipped here".into(),
@@ -900,6 +1227,41 @@ impl Engine for C17 {
         // 1 note
         for a in note_shapes(1, 1, if thorough { 4 } else { 3 }, true) {
             libs.push(a);
+        }
+        // 1 note, references inside containers: the full alphabet incl. Q>1, Qq>1, L>1, Q>9
+        {
+            let mut alpha = symbols(1, true);
+            alpha.extend(container_symbols(1, true));
+            for shape in seqs(&alpha, 3) {
+                if shape.iter().any(|x| x.starts_with('Q') || x.starts_with('L')) {
+                    for titled in [true, false] {
+                        libs.push(note_spec(1, titled, &shape));
+                    }
+                }
+            }
+        }
+        // 2 notes, exactly one container reference in note 1 / in note 2 / in both
+        {
+            let a_c = container_shapes(1, 2, 3, false);
+            let b_plain = note_shapes(2, 2, 2, false);
+            for x in &a_c {
+                for y in &b_plain {
+                    libs.push(format!("{}|{}", x, y));
+                }
+            }
+            let a_plain = note_shapes(1, 2, if thorough { 3 } else { 2 }, false);
+            let b_c = container_shapes(2, 2, 2, false);
+            for x in &a_plain {
+                for y in &b_c {
+                    libs.push(format!("{}|{}", x, y));
+                }
+            }
+            let a_c2 = container_shapes(1, 2, 2, false);
+            for x in &a_c2 {
+                for y in &b_c {
+                    libs.push(format!("{}|{}", x, y));
+                }
+            }
         }
         // 2 notes
         {
@@ -984,7 +1346,7 @@ impl Engine for C17 {
             None => return CaseResult { outcome: "unparsable-case".into(), ..Default::default() },
         };
         let depth = p.depth;
-        if depth <= 6 && p.pat.len < ISOLATE_BLOCKS {
+        if depth <= 6 && p.pat.leaves < ISOLATE_BLOCKS {
             return run_prepared(p);
         }
         let feats = p.feats.clone();
